@@ -22,7 +22,9 @@ def jobs(pid, tier):
                      need_outcomes=['returned:' + o for o in
                                     ('~', '&', '|', 'implies', 'equiv', '<=', '<', '==', '!=', 'ite')]))
     if pid == 'C02':
-        J.append(Job('lemma_canon', dict(N=5 if q else 6, L=3), need_outcomes=['lemma']))
+        J.append(Job('lemma_canon', dict(N=5, L=3), need_outcomes=['lemma']))
+        if not q:
+            J.append(Job('lemma_canon', dict(N=7, L=2), need_outcomes=['lemma']))
         J.append(Job('k1_foa', dict(N=5 if q else 6, L=3, K=1), need_outcomes=FOA))
         J.append(Job('k7_swap', dict(N=4, L=2, x=0, K=2), need_outcomes=['swapped']))
         J.append(Job('k8_gc', dict(N=4, L=2, roots=0, nondet=True), need_outcomes=['collected']))
@@ -34,7 +36,8 @@ def jobs(pid, tier):
         if not q:
             J.append(Job('k7_swap', dict(N=4, L=3, x=1, K=2), need_outcomes=['swapped']))
             J.append(Job('k8_gc', dict(N=5, L=3, roots=0, nondet=False), need_outcomes=['collected']))
-            J.append(Job('k3_ite', dict(N=3, L=2, K=2), need_outcomes=['created']))
+        # ite from an arbitrary state with an arbitrary sound result cache: the canonical reference
+        J.append(Job('k3_ite', dict(N=3, L=2, K=2) if q else dict(N=4, L=2, K=2), need_outcomes=['created']))
     if pid == 'C03':
         J.append(Job('quant', dict(N=4, L=2, entries=['quantify_names', 'quantify_levels', 'exist_forall', 'apply',
                                                       'autoref_quantify', 'autoref_exist_forall']),
@@ -105,6 +108,14 @@ def jobs(pid, tier):
             J.append(Job('autoref_life', dict(N=5, L=3), need_outcomes=['done:var', 'done:ite']))
             J.append(Job('k7_swap', dict(N=4, L=3, x=1, K=2, handle=True), need_outcomes=['swapped']))
             J.append(Job('k8_gc', dict(N=5, L=3, roots=0, nondet=True), need_outcomes=['collected']))
+    # the same query twice with a collection and a node creation (number re-use) in between
+    SEQ = {'C01': ['apply_and', 'apply_implies_neg'], 'C06': ['var', 'apply_and', 'let_const', 'exist', 'add_expr'],
+           'C10': ['count', 'support'], 'C05': ['to_expr', 'add_expr'], 'C03': ['exist'], 'C04': ['let_const'],
+           'C02': ['var', 'apply_implies_neg']}
+    if pid in SEQ:
+        J.append(Job('memo_seq', dict(N=2, L=2, K=3, ops=SEQ[pid]), need_outcomes=['done:' + SEQ[pid][0]]))
+        if not q:
+            J.append(Job('memo_seq', dict(N=3, L=2, K=3, ops=SEQ[pid][:2]), need_outcomes=['done:' + SEQ[pid][0]]))
     # every harness starts from "an arbitrary state satisfying INV" (tables, counts, sound result
     # cache): the two operations that rewrite the tables wholesale must give such a state back
     if pid in ('C03', 'C04', 'C05', 'C07', 'C10', 'C11', 'C12', 'C13', 'C17', 'C18'):
@@ -133,11 +144,15 @@ def jobs(pid, tier):
         # result cache) discharged on the real collect_garbage / swap
         J.append(Job('k8_gc', dict(N=4, L=2, roots=0, nondet=True), need_outcomes=['collected', 'nothing_to_collect']))
         J.append(Job('k7_swap', dict(N=4, L=2, x=0, K=2), need_outcomes=['swapped']))
+        # "reordering is still enabled afterwards", also when the retried call fails
+        J.append(Job('reject', dict(N=3, L=2, fires=1), need_outcomes=['rejected:expr_undeclared', 'rejected:cube_undeclared']))
     if pid == 'C10':
         J.append(Job('sat', dict(N=4, L=2, via=['bdd', 'autoref']), need_outcomes=['returned:' + e for e in
                      ('support', 'essential', 'count', 'pick_iter', 'pick')]))
         J.append(Job('sat', dict(N=4 if q else 5, L=3), need_outcomes=['returned:' + e for e in
                      ('support', 'essential', 'count', 'pick_iter', 'pick')]))
+        J.append(Job('sat', dict(N=4, L=3, kinds=['count_after_count'], decl='identity' if q else 'choose'),
+                     need_outcomes=['returned:count_after_count']))
         J.append(Job('sat', dict(N=5, L=4, kinds=['support', 'essential']),
                      need_outcomes=['returned:support', 'returned:essential']))
         if not q:
@@ -211,6 +226,8 @@ def jobs(pid, tier):
     if pid == 'C18':
         J.append(Job('views', dict(N=4, L=2), need_outcomes=['viewed:' + k for k in
                      ('expand_function', 'expand_succ', 'descendants', 'to_nx', 'to_dot')]))
+        J.append(Job('views', dict(N=4 if q else 5, L=3, kinds=['expand_function', 'expand_succ', 'descendants']),
+                     need_outcomes=['viewed:descendants', 'viewed:expand_succ']))
         # the views read vars / _level_to_var / _succ: the operations that rewrite them keep them in step
         J.append(Job('k9_undeclare', dict(N=4, L=3), need_outcomes=['removed', 'refused']))
         J.append(Job('k7_swap', dict(N=4, L=2, x=0, K=2, handle=True), need_outcomes=['swapped']))
@@ -221,7 +238,7 @@ def jobs(pid, tier):
         for w in ('cudd', 'cudd_zdd', 'sylvan', 'buddy'):
             J.append(Job('pyx', dict(which=w), need_outcomes=['compared'], procs=4))
             J.append(Job('pyx_refs', dict(which=w), need_outcomes=['lifecycle'], procs=2))
-        for fn in ('_forall', '_exist', '_disjoin', '_conjoin', '_compose', 'add_var'):
+        for fn in ('_forall', '_exist', '_disjoin', '_conjoin', '_compose', 'add_var', '_c_compose'):
             J.append(Job('pyx_paths', dict(which=fn), need_outcomes=['returned'], procs=2))
     return J
 
